@@ -116,7 +116,6 @@ var c10Failing = []string{
 // c10Setup are succeeding inputs every random session starts with.
 var c10Setup = []string{`func zz_boom(n) {zz_boom(n + 1)}`, `func zz_boom2(a, b) {zz_boom2(a + 1, b)}`}
 
-
 func c10IsDeadline(s string) bool {
 	return strings.Contains(s, "for true {}") || s == "zz_outer(3000000)" || s == "zz_safe(3000000)"
 }
